@@ -16,6 +16,8 @@ fn check_text(text: &str, want_trace: bool) -> (Result<Option<Value>, String>, O
     let r = catch(|| {
         let (parse, trace) = syntax::parser::parse_module_traced(text);
         let root = parse.syntax_node();
+        // the typed root every consumer starts from (it asserts that the tree's root is a source file)
+        let _ = parse.root();
         let mut pos: u32 = 0;
         let mut cat = String::with_capacity(text.len());
         let mut bad: Option<Value> = None;
